@@ -22,6 +22,9 @@ type vManualPoll struct {
 	s    *vSched
 	stop bool
 	name string
+	// optional observers (slot scenarios): slots of the fetched events, end of the batch
+	onFetch    func(slots []int)
+	onBatchEnd func()
 }
 
 func vNewManualPoll(s *vSched, name string) *vManualPoll {
@@ -34,7 +37,7 @@ func vNewManualPoll(s *vSched, name string) *vManualPoll {
 }
 
 func (m *vManualPoll) ready() bool {
-	if m.stop {
+	if m.stop && m.s.active {
 		return true
 	}
 	fds := []unix.PollFd{{Fd: int32(m.p.fd), Events: unix.POLLIN}}
@@ -51,14 +54,33 @@ func (m *vManualPoll) step() (closed bool) {
 	if n <= 0 {
 		return false
 	}
+	if m.onFetch != nil {
+		var slots []int
+		for i := 0; i < n; i++ {
+			if op := m.p.getOperator(0, unsafe.Pointer(&m.p.events[i].data)); op != nil && op != m.p.wop {
+				slots = append(slots, int(op.index))
+			}
+		}
+		m.onFetch(slots)
+	}
 	if m.p.Handler(m.p.events[:n]) {
 		return true
 	}
 	m.p.opcache.free()
+	if m.onBatchEnd != nil {
+		m.onBatchEnd()
+	}
 	return false
 }
 
 func (m *vManualPoll) start() {
+	prev := m.s.onStop
+	m.s.onStop = func() {
+		m.stop = true // the poller actor must not keep stepping the poller once the scheduler has stopped
+		if prev != nil {
+			prev()
+		}
+	}
 	m.s.Go(m.name, func() {
 		a := m.s.lookup(vGID())
 		a.daemon = true
